@@ -79,6 +79,29 @@ mod harnesses {
         }
     }
 
+    // ------------------------------------------------------------------ C14: parse_safe_json
+    /// Bounded stand-in (body length <= 12; the function looks at the first five bytes and the length
+    /// only): no panic, and serde_json::from_slice (replaced by a recorder in extracted.rs) receives the
+    /// body minus the guard `)]}'\\n` iff the body starts with the guard, else the whole body.
+    const BODY_MAX: usize = 12;
+    #[kani::proof]
+    #[kani::unwind(14)]
+    fn c14_parse_safe_json_strips_exactly_the_guard_and_never_panics() {
+        let len: usize = kani::any();
+        kani::assume(len <= BODY_MAX);
+        let buf: [u8; BODY_MAX] = kani::any();
+        let body = &buf[..len];
+        let _ = super::extracted::parse_safe_json::<()>(body);
+        let base = body.as_ptr() as usize;
+        let (p, l) = unsafe { (super::extracted::SEEN_PTR, super::extracted::SEEN_LEN) };
+        let guarded = len >= 5 && buf[0] == b')' && buf[1] == b']' && buf[2] == b'}' && buf[3] == b'\'' && buf[4] == b'\n';
+        if guarded {
+            assert!(p == base + 5 && l == len - 5);
+        } else {
+            assert!(p == base && l == len);
+        }
+    }
+
     // ------------------------------------------------------------------ C09: update_from_omaha
     use omaha_client::app_set::{AppSet, AppSetExt, VecAppSet};
     use omaha_client::common::{App, UserCounting};
